@@ -72,6 +72,9 @@ type Ctx struct {
 	resolved bool
 	finished bool
 
+	// statusSeen is set by the read loop once the response has carried :status.
+	statusSeen bool
+
 	// timer is the cancel timer, kept with the Ctx so that reusing one does not
 	// mean allocating a timer and a closure per request.
 	timer *time.Timer
@@ -205,6 +208,7 @@ func acquireCtx(req *fasthttp.Request, res *fasthttp.Response) *Ctx {
 	ctx.done = false
 	ctx.resolved = false
 	ctx.finished = false
+	ctx.statusSeen = false
 	ctx.armed = false
 
 	ctx.conn.Store(nil)
